@@ -566,6 +566,11 @@ class Sample:
             self._prefix = chr_prefix(
                 self.gene.chr, [x["SN"] for x in sam.header["SQ"]]
             )
+            if self._prefix + cn_region.chr not in [x["SN"] for x in sam.header["SQ"]]:
+                raise AldyException(
+                    f"Chromosome {cn_region.chr} of the copy-number neutral region is "
+                    + f"not in the header of {path}: the sample cannot be normalized."
+                )
             # Set it to _fetched_ if a CN-neutral region is user-provided.
             # Then read the CN-neutral region.
             if has_index:
